@@ -237,11 +237,16 @@ func (s *System) removeFuture(agentRef *AgentRef) {
 }
 
 func (s *System) removeFuturesByAgentPath(agentPath vivid.ActorPath, err error) {
+	// 在锁内拷贝路径列表：下方 f.Close 会经由 closer 回调进入 removeFuture 并在锁内修改同一个内层 map，
+	// 其他协程上的 Future 完成（应答、超时）也会并发修改它，不可在锁外直接遍历该 map。
 	s.futureLock.Lock()
-	refs := s.futureAgents[agentPath]
+	refs := make([]vivid.ActorPath, 0, len(s.futureAgents[agentPath]))
+	for ref := range s.futureAgents[agentPath] {
+		refs = append(refs, ref)
+	}
 	s.futureLock.Unlock()
 
-	for ref := range refs {
+	for _, ref := range refs {
 		if ctx, ok := s.actorContexts.Load(ref); ok {
 			if f, ok := ctx.(*future.Future[vivid.Message]); ok {
 				f.Close(err)
